@@ -12,7 +12,8 @@ RULE_TEXT = ("Generated workflows with failing steps (with/without retries) and 
              "wildcard, both, none; max_recoveries 1..3; handlers that re-emit the failing step's input (lineage re-enters "
              "the handler), emit a downstream event, return None, or fail themselves; each program is run twice on the same "
              "tape, with graph validation enabled and disabled. Non-trivial: a handler was entered >=2 times on one lineage "
-             "or a budget was exhausted; distinct = abstract trace shape.")
+             "or a budget was exhausted; distinct = abstract trace shape."
+             " A run that raises a step's exception must have published WorkflowFailedEvent (rule no-failed-event).")
 COMPONENTS = {"real": ["workflows.* engine incl. validate._collect_catch_error_handlers"], "stub": ["llama_index_instrumentation"], "sim": ["loop, clock"]}
 ASSUMPTIONS = ["owner = scoped handler listing the step, else wildcard, else none; handler steps are never routed",
                "lineage = chain of parent events (returned or sent) back to the start event"]
